@@ -948,8 +948,29 @@ func (g *Gen) roundTripParams() string {
 	}
 }
 
+// genC03Lockstep: one more-call whose handler sends each further reply only
+// after the client has received the previous one - every reply is on the wire
+// when Reply returns, not when the sequence is complete.
+func genC03Lockstep(g *Gen) Scenario {
+	s := &E2EScenario{Prop: "C03", Config: genConfig(g), Scripts: map[int]Script{}}
+	s.Service = genService(g, 1, "unix:@lockstep")
+	var sc Script
+	n := 1 + g.IntN(4)
+	for i := 1; i <= n; i++ {
+		sc.Actions = append(sc.Actions, Action{Op: "reply", Continues: true, Params: g.roundTripParams()}, Action{Op: "awaitev", Name: "c.reply", N: i})
+	}
+	sc.Actions = append(sc.Actions, Action{Op: "reply", Params: g.roundTripParams()})
+	s.Scripts[1] = sc
+	s.Clients = []E2EClient{{Transport: g.Pick("stream", "stream", "bridge"), Calls: []E2ECall{{Cid: 1, Method: s.Service.Ifaces[0].Name + ".M",
+		Params: withCid(1, g.roundTripParams()), Flags: varlink.More, Via: "send"}}}}
+	return s
+}
+
 func genC03(seed uint64, tier string) Scenario {
 	g := NewGen(seed, 0xC03)
+	if g.IntN(25) == 0 {
+		return genC03Lockstep(g)
+	}
 	script := func(more bool) Script {
 		var sc Script
 		if more {
